@@ -141,8 +141,10 @@ func (c *Content) WithFileInfoDefaults(umask fs.FileMode, mtime time.Time) *Cont
 		cc.FileInfo.Mode != 0 &&
 		(cc.FileInfo.Size != 0 || (cc.Type == TypeDir || cc.Type == TypeImplicitDir)))
 
-	// only stat source when we actually need more information
-	if cc.Source != "" && !fileInfoAlreadyComplete {
+	// only stat source when we actually need more information; the source of a
+	// symlink is its literal target inside the package, not a path on the
+	// build host, so it must never be resolved here
+	if cc.Source != "" && cc.Type != TypeSymlink && !fileInfoAlreadyComplete {
 		info, err := os.Stat(cc.Source)
 		if err == nil {
 			if cc.FileInfo.MTime.IsZero() {
